@@ -259,10 +259,48 @@ pub fn build_tar(members: &[Member]) -> Result<Vec<u8>, String> {
     tb.into_inner().map_err(|e| format!("{e}"))
 }
 
+/// Writes the tree under `root`. About a quarter of the files and a fifth of the directories (chosen by a hash of
+/// their path, so a case replays identically) are symbolic links to content kept in the sibling directory `<root>/../store`:
+/// `FileSystem` resolves ids through links (`read`, `exists`), so a linked file is a file and a linked directory is a
+/// directory of the tree it shows, and its listings have to say so as well (seeded change C11-g: `read_dir` classified
+/// entries without following links).
 pub fn materialise(t: &Tree, root: &std::path::Path) -> io::Result<()> {
+    fn h(s: &str) -> u32 { s.bytes().fold(2166136261u32, |a, b| (a ^ b as u32).wrapping_mul(16777619)) }
     std::fs::create_dir_all(root)?;
-    for q in &t.dirs { std::fs::create_dir_all(root.join(q.join("/")))?; }
-    for f in &t.files { std::fs::write(root.join(f.path()), &f.bytes)?; }
+    let store = root.parent().map(|p| p.join("store"));
+    let mut n = 0usize;
+    let mut dirs: Vec<&Vec<String>> = t.dirs.iter().collect();
+    dirs.sort_by_key(|q| q.len());
+    for q in dirs {
+        let p = root.join(q.join("/"));
+        if p.exists() { continue; }
+        if let Some(par) = p.parent() { std::fs::create_dir_all(par)?; }
+        match &store {
+            #[cfg(unix)]
+            Some(st) if h(&q.join("/")) % 5 == 0 => {
+                n += 1;
+                let target = st.join(format!("d{n}"));
+                std::fs::create_dir_all(&target)?;
+                std::os::unix::fs::symlink(&target, &p)?;
+            }
+            _ => std::fs::create_dir_all(&p)?,
+        }
+    }
+    for f in &t.files {
+        let p = root.join(f.path());
+        match &store {
+            #[cfg(unix)]
+            Some(st) if h(&f.path()) % 4 == 0 => {
+                n += 1;
+                std::fs::create_dir_all(st)?;
+                // the stored file keeps no extension and another name: only the link's name may count
+                let target = st.join(format!("f{n}"));
+                std::fs::write(&target, &f.bytes)?;
+                std::os::unix::fs::symlink(&target, &p)?;
+            }
+            _ => std::fs::write(&p, &f.bytes)?,
+        }
+    }
     Ok(())
 }
 
